@@ -3,7 +3,9 @@
     TypeError, while the docstring (and `list.pop()`) say "default last".
   * `ReplQueue(maxsize=0).full()` / `ReplPriorityQueue(maxsize=0).full()`: `len(data) == maxsize` is True
     for an EMPTY UNBOUNDED queue (and False for an over-full one); `queue.Queue(0).full()` is False.
-Repair: fixes/D12-batteries-pop-default-and-full.diff.  The witness evaluates the property statement
+  * D41: `ReplDict.setdefault(key)` without `default` raised TypeError (the parameter had no default), while
+    `dict.setdefault(key)` returns None and stores it -- also when the key holds None / a falsy value already.
+Repairs: fixes/D12-batteries-pop-default-and-full.diff, fixes/D41-repldict-setdefault-optional-default.diff.  The witness evaluates the property statement
 (battery result == builtin result) on the real classes; nothing trips on a repaired tree."""
 import queue
 import time
@@ -36,6 +38,24 @@ def scenario(repo):
                           else "batteries.ReplList.pop:no-argument-differs-from-list",
                           "what": "ReplList%r.pop() -> %s (contents %r); list%r.pop() -> %s (contents %r)"
                                   % (init, got, l.rawData(), init, want, ref)})
+            break
+    # --- ReplDict.setdefault(key) -----------------------------------------------------------------
+    for init in ({}, {'a': None}, {'a': 0}, {'a': 5}):
+        d, ref = B.ReplDict(), dict(init)
+        d.reset(dict(init), _doApply=True)
+        got, want = _try(lambda: d.setdefault('a', _doApply=True)), _try(lambda: ref.setdefault('a'))
+        obs["ReplDict(%r).setdefault('a')" % (init,)] = [repr(got), repr(want)]
+        if repr(got) != repr(want) or repr(d.rawData()) != repr(ref):
+            viols.append({"signature": "batteries.ReplDict.setdefault:differs-from-builtin:TypeError" if got == "raises TypeError"
+                          else "batteries.ReplDict.setdefault:differs-from-builtin:value",
+                          "what": "ReplDict(%r).setdefault('a') -> %r (contents %r); dict(%r).setdefault('a') -> %r (contents %r)"
+                                  % (init, got, d.rawData(), init, want, ref)})
+            break
+        got, want = _try(lambda: d.setdefault('a', 1, _doApply=True)), _try(lambda: ref.setdefault('a', 1))
+        if repr(got) != repr(want) or repr(d.rawData()) != repr(ref):
+            viols.append({"signature": "batteries.ReplDict.setdefault:differs-from-builtin:value",
+                          "what": "ReplDict.setdefault('a', 1) on %r -> %r (contents %r); dict -> %r (contents %r)"
+                                  % (init, got, d.rawData(), want, ref)})
             break
     # --- full() ----------------------------------------------------------------------------------
     for cname, ref_cls in (("ReplQueue", queue.Queue), ("ReplPriorityQueue", queue.PriorityQueue)):
